@@ -884,7 +884,7 @@ func (r *runner) deferOrGo(b *cfg.Block, c *ast.CallExpr, st *State, prefix stri
 		}
 		r.addTag(st, prefix+t)
 	}
-	if callee != nil && r.depth > 0 {
+	if callee != nil && r.depth > 0 && !r.foreignIface(callee) {
 		_, callees, _ := r.sp.W.Resolve(r.info, c)
 		if s := r.sp.calleeSummary(callees, r.depth-1); s != nil {
 			for t := range s.MustAll {
@@ -1022,7 +1022,7 @@ func (r *runner) call(b *cfg.Block, c *ast.CallExpr, st *State, valueUsed bool) 
 	for _, t := range or.Tags {
 		r.addTag(st, t)
 	}
-	if callee != nil && r.depth > 0 {
+	if callee != nil && r.depth > 0 && !r.foreignIface(callee) {
 		_, callees, _ := r.sp.W.Resolve(r.info, c)
 		if s := r.sp.calleeSummary(callees, r.depth-1); s != nil {
 			or.Sum = s
@@ -1481,4 +1481,14 @@ func (r *runner) condValue(cond ast.Expr, st *State) (known, val bool) {
 		}
 	}
 	return false, false
+}
+
+// foreignIface: a call through an interface declared outside the repository (database/sql/driver,
+// getty, ...) dispatches to an implementation the repository does not choose (the wrapped driver);
+// repo types that happen to implement it are not assumed to be the target.
+func (r *runner) foreignIface(f *types.Func) bool {
+	if !core.IsIfaceMethod(f) {
+		return false
+	}
+	return f.Pkg() == nil || !strings.HasPrefix(f.Pkg().Path(), core.Module)
 }
